@@ -412,7 +412,13 @@ func (p *Pilot) MarginClose() {
 
 func (p *Pilot) Misc() {
 	a := p.W.Admin
-	switch p.R.Intn(4) {
+	switch p.R.Intn(6) {
+	case 4:
+		m := admintypes.MsgSetParams{Signer: a.Addr.String(), Params: &admintypes.Params{SubmitProposalFee: sdk.NewUint(uint64(1000 + p.R.Intn(100000)))}}
+		p.Tx("admin.setparams", a, &m)
+	case 5:
+		m := margintypes.MsgWhitelist{Signer: a.Addr.String(), WhitelistedAddress: p.user().Addr.String()}
+		p.Tx("margin.whitelist", a, &m)
 	case 0:
 		d := fmt.Sprintf("cnew%d", p.Height())
 		m := trtypes.MsgRegister{From: a.Addr.String(), Entry: &trtypes.RegistryEntry{Denom: d, BaseDenom: d, Decimals: int64(p.R.Intn(19)),
